@@ -65,6 +65,12 @@ class Module:
         except SyntaxError as e:
             raise AnalysisError(f'cannot parse {self.relpath}: {e}')
         normalise(self.tree)
+        self.inlined: list[str] = []
+        if repo.baseline is not None:
+            from .inline import inline_module
+            self.inlined = inline_module(self.tree, name, repo.baseline.get(name, set()), repo.ext_refs)
+            if self.inlined:
+                normalise(self.tree)
         self.imports: dict[str, str] = {}
         self.funcs: dict[str, Func] = {}
         self.classes: dict[str, ast.ClassDef] = {}
@@ -219,6 +225,15 @@ class Repo:
         pkg_dir = os.path.join(self.root, PKG)
         if not os.path.isdir(pkg_dir):
             raise AnalysisError(f'{pkg_dir} is not a directory')
+        # functions of the tree the rules were confirmed on: anything else is a new helper and is expanded at its call sites (sa/inline.py)
+        try:
+            from .baseline import BASELINE
+            self.baseline = {k: set(v) for k, v in BASELINE.items()}
+        except ImportError:
+            self.baseline = None
+        if os.environ.get('VERIF_NO_INLINE') == '1':
+            self.baseline = None
+        self.ext_refs = self._external_refs(pkg_dir) if self.baseline is not None else set()
         for dirpath, dirnames, filenames in os.walk(pkg_dir):
             dirnames[:] = sorted(d for d in dirnames if d != '__pycache__')
             for fn in sorted(filenames):
@@ -228,6 +243,25 @@ class Repo:
                     if rel.endswith('.__init__'):
                         rel = rel[: -len('.__init__')]
                     self.modules[rel] = Module(self, rel, path)
+
+    @staticmethod
+    def _external_refs(pkg_dir) -> set[str]:
+        """names imported from package modules or used as attributes anywhere: a helper with such a name is never dropped"""
+        out = set()
+        for dirpath, dirnames, filenames in os.walk(pkg_dir):
+            for fn in filenames:
+                if fn.endswith('.py'):
+                    try:
+                        with open(os.path.join(dirpath, fn), encoding='utf-8') as fh:
+                            t = ast.parse(fh.read())
+                    except (SyntaxError, OSError):
+                        continue
+                    for n in ast.walk(t):
+                        if isinstance(n, ast.ImportFrom):
+                            out |= {a.name for a in n.names}
+                        elif isinstance(n, ast.Attribute):
+                            out.add(n.attr)
+        return out
 
     # -- anchors ------------------------------------------------------------
     def mod(self, name: str) -> Module:
